@@ -136,3 +136,33 @@ pub struct Cfg {
     pub thorough: bool,
     pub seed: u64,
 }
+
+// ---------------------------------------------------------------- size sweeps
+
+/// lengths around every block size a word-at-a-time / unrolled / threshold implementation could
+/// use (the bounded-exhaustive generators stay small; these sweeps are what exercises the
+/// "only for long inputs" paths)
+pub fn block_sizes(max: usize) -> Vec<usize> {
+    let mut v: Vec<usize> = (0..=9).collect();
+    for b in [16usize, 24, 32, 40, 48, 64, 96, 128, 192, 256] {
+        v.extend([b - 1, b, b + 1]);
+    }
+    v.extend([34, 66, 130, 300]);
+    v.sort_unstable();
+    v.dedup();
+    v.into_iter().filter(|x| *x <= max).collect()
+}
+
+/// deterministic filler text of `n` bytes over the given ASCII letters (no two adjacent equal)
+pub fn filler(n: usize, salt: u64, letters: &[u8]) -> Vec<u8> {
+    let mut r = Rng::new(salt ^ 0xF111);
+    let mut v = Vec::with_capacity(n);
+    for _ in 0..n {
+        let mut b = *r.pick(letters);
+        if v.last() == Some(&b) {
+            b = letters[(letters.iter().position(|x| *x == b).unwrap() + 1) % letters.len()];
+        }
+        v.push(b);
+    }
+    v
+}
